@@ -48,6 +48,7 @@ type C14Case struct {
 	Root   bool           `json:"root"`
 	Ops    []C14Op        `json:"ops"`
 	Delays []int          `json:"delays"` // microseconds to hold background goroutines at successive hook points
+	Pats   []string       `json:"pats,omitempty"` // directed patterns appended to the random history (labels only)
 }
 
 // ---- hook handler: counts configuration refreshes, delays background goroutines ----
@@ -521,7 +522,12 @@ func genC14Config(t *rapid.T) map[string]any {
 		cfg["cli"] = map[string]any{"timeout": float64(rapid.IntRange(1000, 60000).Draw(t, "to"))}
 	}
 	if rapid.Bool().Draw(t, "c4") {
-		cfg["limits"] = map[string]any{"maxIncludeDepth": float64(rapid.IntRange(1, 60).Draw(t, "md"))}
+		lim := map[string]any{"maxIncludeDepth": float64(rapid.IntRange(1, 60).Draw(t, "md"))}
+		if rapid.IntRange(0, 2).Draw(t, "c4size") == 0 {
+			// around the size of the generated files: some included files pass, some do not
+			lim["maxFileSizeBytes"] = float64(rapid.SampledFrom([]int{1, 64, 200, 400, 1000, 1 << 20}).Draw(t, "mfs"))
+		}
+		cfg["limits"] = lim
 	}
 	if rapid.Bool().Draw(t, "c5") {
 		cfg["diagnostics"] = map[string]any{"undeclaredAccounts": rapid.Bool().Draw(t, "ua")}
@@ -575,6 +581,7 @@ func genC14(t *rapid.T, p *gen.Profile) *C14Case {
 		c.Ops = append(c.Ops, op)
 	}
 	if rapid.IntRange(0, 3).Draw(t, "latepattern") == 0 {
+		c.Pats = append(c.Pats, "pattern:late-analysis")
 		// the analysis of a superseded version finishes after that of its successor, then requests
 		d := rapid.IntRange(0, n-1).Draw(t, "pdoc")
 		a1 := rapid.IntRange(0, 2).Draw(t, "palt1")
@@ -590,6 +597,7 @@ func genC14(t *rapid.T, p *gen.Profile) *C14Case {
 		}
 	}
 	if rapid.IntRange(0, 3).Draw(t, "configpattern") == 0 {
+		c.Pats = append(c.Pats, "pattern:config-burst")
 		// configuration changes in quick succession (limits among them, which rebuild the include trees)
 		// with requests arriving meanwhile and after everything has settled
 		d := rapid.IntRange(0, n-1).Draw(t, "cpdoc")
@@ -608,6 +616,7 @@ func genC14(t *rapid.T, p *gen.Profile) *C14Case {
 		}
 	}
 	if n >= 2 && rapid.IntRange(0, 3).Draw(t, "includepattern") == 0 {
+		c.Pats = append(c.Pats, "pattern:included-file-changes-during-load")
 		// an included file that is open changes while the analysis of the including document is
 		// between reading that file and storing its result; then requests on the including document
 		// an including document and one of the files it includes, when there is such a pair
@@ -641,6 +650,63 @@ func genC14(t *rapid.T, p *gen.Profile) *C14Case {
 				Pos: refclient.Pos{Line: rapid.IntRange(0, 12).Draw(t, "ipline"), Char: rapid.IntRange(0, 30).Draw(t, "ipchar")}})
 		}
 	}
+	if n >= 2 && rapid.IntRange(0, 3).Draw(t, "limitspattern") == 0 {
+		// the include limits change while the analysis of an including document stands between
+		// reading an included file (not open: it comes from disk, through the loader's cache) and
+		// storing the tree; then requests on the including document
+		type edge struct{ from, to int }
+		var edges []edge
+		for i := 0; i < n; i++ {
+			for _, k := range gen.IncludeTargets(ws.Files[i].Journal, i, n) {
+				if k != i {
+					edges = append(edges, edge{i, k})
+				}
+			}
+		}
+		if len(edges) > 0 {
+			ed := rapid.SampledFrom(edges).Draw(t, "lpedge")
+			c.Pats = append(c.Pats, "pattern:limits-change-during-load")
+			if rapid.IntRange(0, 2).Draw(t, "lpnoroot") != 0 {
+				c.Root = false
+			}
+			lim := map[string]any{}
+			if rapid.Bool().Draw(t, "lpdepth") {
+				lim["maxIncludeDepth"] = float64(rapid.IntRange(1, 2).Draw(t, "lpmd"))
+			} else if rapid.IntRange(0, 3).Draw(t, "lpcoarse") == 0 {
+				lim["maxFileSizeBytes"] = float64(rapid.SampledFrom([]int{1, 32, 100, 200, 400}).Draw(t, "lpmfs"))
+			} else {
+				// a limit that every text of the including document passes and the included file
+				// (made longer if need be) does not
+				dmax := 0
+				for _, dj := range append([]*m.Journal{ws.Files[ed.from].Journal}, c.Alts[ed.from]...) {
+					if sz := len(m.Render(dj).Text); sz > dmax {
+						dmax = sz
+					}
+				}
+				margin := rapid.IntRange(0, 16).Draw(t, "lpmargin")
+				ej := ws.Files[ed.to].Journal
+				for k := 0; k < 64 && len(m.Render(ej).Text) <= dmax+margin; k++ {
+					ej.Entries = append(ej.Entries, m.Entry{Tx: gen.GenTx(t, p, pools, jo.Tx), Blank: 1})
+				}
+				lim["maxFileSizeBytes"] = float64(dmax + margin)
+				c.Pats = append(c.Pats, "pattern:size-limit-between-document-and-included-file")
+			}
+			for k := 0; k < n; k++ {
+				if k != ed.from {
+					c.Ops = append(c.Ops, C14Op{Op: "close", Doc: k})
+				}
+			}
+			c.Ops = append(c.Ops,
+				C14Op{Op: "open", Doc: ed.from, Wait: 2},
+				C14Op{Op: "change", Doc: ed.from, Alt: rapid.IntRange(0, 2).Draw(t, "lpalt"), Hold: true, HoldAt: rapid.IntRange(1, 2).Draw(t, "lpat")},
+				C14Op{Op: "config", Doc: ed.from, Config: map[string]any{"limits": lim}, Wait: rapid.SampledFrom([]int{0, 2, 2}).Draw(t, "lpwait")},
+				C14Op{Op: "release", Wait: 2})
+			for k := rapid.IntRange(1, 3).Draw(t, "lpreqs"); k > 0; k-- {
+				c.Ops = append(c.Ops, C14Op{Op: "request", Doc: ed.from, Kind: rapid.SampledFrom([]string{"completion", "hover", "references", "inlineCompletion", "completion"}).Draw(t, "lpkind"),
+					Pos: refclient.Pos{Line: rapid.IntRange(0, 12).Draw(t, "lpline"), Char: rapid.IntRange(0, 30).Draw(t, "lpchar")}})
+			}
+		}
+	}
 	nd := rapid.IntRange(0, 12).Draw(t, "ndelays")
 	for i := 0; i < nd; i++ {
 		c.Delays = append(c.Delays, rapid.SampledFrom([]int{0, 10, 100, 500, 2000}).Draw(t, "delay"))
@@ -661,6 +727,7 @@ func TestC14(t *testing.T) {
 		for _, op := range c.Ops {
 			cls = append(cls, "op:"+op.Op)
 		}
+		cls = append(cls, c.Pats...)
 		recC14.Case(nt, mustJSON(c), dedupe(cls)...)
 		recC14.Count("requests_overlapping_background_work", int64(overlap))
 		if nt && recC14.WantSample() {
